@@ -113,6 +113,7 @@ namespace opensmt {
         int zeroes = 0;
         bool is_frac = false;
         bool is_neg = false;
+        bool den_nonzero = false;
 
         if (flo[0] == '-') {
             flo++;
@@ -154,9 +155,15 @@ namespace opensmt {
                 state = 2;
             }
                 // We come here if it is a fraction already
-            else if (state == 5 && isDigit(flo[i])) { state = 5; }
+            else if (state == 5 && isDigit(flo[i])) {
+                state = 5;
+                if (isPosDig(flo[i])) { den_nonzero = true; }
+            }
             else { throw strConvException(flo); }
         }
+
+        // A fraction needs a denominator, and a non-zero one (GMP would divide by zero when canonicalizing)
+        if (is_frac and not den_nonzero) { throw strConvException(flo); }
 
         if (is_frac) {
             normalize(rat, flo, is_neg);
